@@ -2,6 +2,7 @@
    The three cross-call mechanisms of the code (memo caches, the per-schema scratch context, the permanent
    registration of xsi:type uses on identity constraints) are proved behaviour-neutral for every history.
    That no other cross-call state exists is not a theorem of these models: the history harness probes it. *)
+From XV Require KeyedMemo KeyedMemoProofs.
 From XV Require Import Base History HistoryProofs.
 
 (* (a) any sequence of calls through a bounded LRU memo returns the values of the function itself *)
@@ -59,3 +60,16 @@ Example C10_skip_variant_refuted :
   let s1 := fst (run_doc_with (register1_skip ex_widen true) ex_s0 ex_d1) in
   snd (run_doc ex_widen s1 ex_d2) = [] /\ snd (run_doc ex_widen ex_s0 ex_d2) = [(1, 7); (1, 7)]%N.
 Proof. vm_compute. split; reflexivity. Qed.
+
+(* (d) a memo table keyed by a projection of the arguments (model: KeyedMemo.v) is history-neutral exactly when the function
+   depends on its arguments through the key only *)
+Theorem C10_keyed_memo_history : forall (A V : Type) (key : A -> N) (f : A -> V),
+  (forall a b, key a = key b -> f a = f b) ->
+  forall xs c, KeyedMemo.sound A V key f c -> KeyedMemo.run A V key f c xs = map f xs.
+Proof. exact KeyedMemoProofs.keyed_memo_history. Qed.
+Print Assumptions C10_keyed_memo_history.
+
+Theorem C10_coarse_key_refuted : forall (A V : Type) (key : A -> N) (f : A -> V) a b,
+  key a = key b -> f a <> f b -> KeyedMemo.run A V key f [] [a; b] <> map f [a; b].
+Proof. exact KeyedMemoProofs.coarse_key_refuted. Qed.
+Print Assumptions C10_coarse_key_refuted.
